@@ -759,3 +759,28 @@ impl<T: TypeConfig> crate::Node<T> {
         )
     }
 }
+
+#[cfg(d_engine_verif)]
+impl<T: TypeConfig> crate::Node<T> {
+    /// Same as `verif_embedded_client`, with the handle bound to the server's read-consistency
+    /// settings exactly as `EmbeddedEngine` binds it (`with_server_policy`).
+    #[allow(clippy::too_many_arguments)]
+    pub fn verif_embedded_client_cfg(
+        event_tx: mpsc::Sender<InboundEvent>,
+        cmd_tx: mpsc::Sender<d_engine_core::ClientCmd>,
+        state_machine: Arc<T::SM>,
+        read_lease: Arc<d_engine_core::ReadLease>,
+        client_id: u32,
+        timeout: Duration,
+        default_policy: ReadConsistencyPolicy,
+        allow_client_override: bool,
+    ) -> EmbeddedClient<T> {
+        EmbeddedClient::new_internal(
+            event_tx,
+            EmbeddedReadHandle::new(state_machine, read_lease, cmd_tx)
+                .with_server_policy(default_policy, allow_client_override),
+            client_id,
+            timeout,
+        )
+    }
+}
